@@ -169,7 +169,7 @@ def run_tapped_case(ctx, kind_, idx):
         lin = 10.0 ** (s / 10.0) if kw.get("snr_in_db", True) else s
         want = np.sqrt(sp / lin)
     got = np.asarray(c["scale"], dtype=float)
-    if got.shape != np.shape(want) or np.any(np.abs(got - want) > 1e-9 * np.abs(want) + 1e-300):
+    if got.shape != np.shape(want) or not np.all(np.abs(got - want) <= 1e-9 * np.abs(want) + 1e-300):
         ctx.violation("noise_scale", cid, {"tapped_scale": got, "want": want, "signal_power": sp, "case": info})
         return
     if not (np.all(np.asarray(c["loc"]) == 0)):
@@ -195,7 +195,7 @@ def run_tapped_case(ctx, kind_, idx):
             lin_ = 10.0 ** (s_ / 10.0) if kw.get("snr_in_db", True) else s_
             want2 = np.sqrt(float(np.mean(np.asarray(ain, dtype=float) ** 2)) / lin_)
             got2 = np.asarray(tap2.calls[0]["scale"], dtype=float)
-            if got2.shape != np.shape(want2) or np.any(np.abs(got2 - want2) > 1e-9 * np.abs(want2) + 1e-300):
+            if got2.shape != np.shape(want2) or not np.all(np.abs(got2 - want2) <= 1e-9 * np.abs(want2) + 1e-300):
                 ctx.violation("noise_scale_after_in_place_change_of_the_same_array", cid,
                               {"factor": factor, "tapped_scale": got2, "want": want2, "case": info})
                 return
@@ -241,10 +241,10 @@ def run_statistical_case(ctx, kind_, idx):
     info = {"signal": t, "snr_db": snr_db, "given_in_db": db, "empirical_snr_db": emp,
             "mean_of_noise": float(np.mean(d)), "sigma": sigma, "N": N}
     ctx.track_worst("snr_error_db", abs(emp - snr_db))
-    if abs(emp - snr_db) > 0.1:
+    if not abs(emp - snr_db) <= 0.1:
         ctx.violation("empirical_snr", cid, info)
         return
-    if abs(float(np.mean(d))) > 6 * sigma / math.sqrt(N):
+    if not abs(float(np.mean(d))) <= 6 * sigma / math.sqrt(N):
         ctx.violation("noise_mean", cid, info)
         return
     ctx.nontriv("stat", idx)
